@@ -89,8 +89,17 @@ class ConnMan:
         """
         Helper function for in-place update of bus connectivity.
         """
-        self.changes['on'][...] = np.logical_and(self.busu0 == 0, self.system.Bus.u.v == 1)
-        self.changes['off'][...] = np.logical_and(self.busu0 == 1, self.system.Bus.u.v == 0)
+        on = np.logical_and(self.busu0 == 0, self.system.Bus.u.v == 1)
+        off = np.logical_and(self.busu0 == 1, self.system.Bus.u.v == 0)
+
+        # keep the changes recorded earlier that have not been acted on yet,
+        # e.g., when several buses are turned off one after another
+        if self.is_needed:
+            on = np.logical_or(on, self.changes['on'])
+            off = np.logical_or(off, self.changes['off'])
+
+        self.changes['on'][...] = on
+        self.changes['off'][...] = off
         self.busu0[...] = self.system.Bus.u.v
 
     def record(self):
@@ -143,8 +152,9 @@ class ConnMan:
                 grp_devs = self.system.__dict__[grp_name].find_idx(keys=src, values=offbus_idx,
                                                                    allow_none=True, allow_all=True,
                                                                    default=None)
-                grp_devs_flat = list_flatten(grp_devs)
-                if grp_devs_flat != [None]:
+                # buses without any device of this group yield `None`
+                grp_devs_flat = [dev for dev in list_flatten(grp_devs) if dev is not None]
+                if len(grp_devs_flat) > 0:
                     devices.append(grp_devs_flat)
 
             devices_flat = list_flatten(devices)
